@@ -51,7 +51,10 @@ Answer(st) == /\ phase \in {"sent", "served"}
               /\ IF phase = "served" THEN st = 200
                  ELSE /\ st >= 400                            \* an error, and nobody of another kind was contacted
                       \* (whether an unknown model is an error under a lenient routing strategy is C09's business)
-                      /\ (Eligible \ Refusing) = {} \/ Lenient
+                      \* with a refusing endpoint in play the request may fail although another endpoint of the kind
+                      \* remains: olla narrows the candidates further (by the capabilities a profile declares for the
+                      \* path), and whether every remaining candidate is tried is C04's business, not this property's
+                      /\ (Eligible \ Refusing) = {} \/ Lenient \/ (Eligible \cap Refusing) # {}
               /\ phase' = "answered" /\ UNCHANGED <<prefix, allowed, typ, H, served, scn>>
 \* a model listing under the prefix: only models available on endpoints of that kind
 Listing(ms, modelsOf) == /\ phase = "answered"
